@@ -865,6 +865,131 @@ func runScenario(o *hlib.Out, kind string, s *scenario) {
 	monitors(o, idx, s, &res, scoped)
 }
 
+// ---- through the public policy API --------------------------------------------------------------
+
+// policyScenario drives gocql.TokenAwareHostPolicy(RoundRobinHostPolicy()) through a history of SetPartitioner / AddHost /
+// AddHosts / RemoveHost / KeyspaceChanged that ends with the scenario's hosts, then asks Pick for routing keys: what Pick
+// offers first must be the replica list of the key's token (the token's owner when the keyspace has no replica map).
+func policyScenario(o *hlib.Out, s *scenario) {
+	r := o.Rng
+	pol := gocql.TokenAwareHostPolicy(gocql.RoundRobinHostPolicy())
+	haveKs := !r.Chance(10)
+	var ks *gocql.KeyspaceMetadata
+	if haveKs {
+		ks = &gocql.KeyspaceMetadata{Name: "ks", StrategyClass: s.Class, StrategyOptions: s.opts()}
+	}
+	if !gocql.VerifC10InitPolicy(pol, ks, "ks") {
+		violate(o, -1, "policy-type", "", "TokenAwareHostPolicy is not the token-aware policy", nil)
+		return
+	}
+	mkHost := func(i int, h hostD) *gocql.HostInfo {
+		a := h.Addr
+		return gocql.VerifC10NewHost(gocql.VerifC10Host{ID: fmt.Sprintf("h%d", i), DC: h.DC, Rack: h.Rack,
+			Addr: net.IPv4(byte(a>>24), byte(a>>16), byte(a>>8), byte(a)), Tokens: h.Tokens})
+	}
+	hosts := make([]*gocql.HostInfo, len(s.Hosts))
+	index := map[*gocql.HostInfo]int{}
+	for i, h := range s.Hosts {
+		hosts[i] = mkHost(i, h)
+		index[hosts[i]] = i
+	}
+	// the history
+	partAt := r.Intn(len(hosts) + 1)
+	extraAt := -1
+	var extra *gocql.HostInfo
+	if r.Chance(40) && len(hosts) > 0 {
+		extraAt = r.Intn(len(hosts))
+		extra = mkHost(999, hostD{DC: s.Hosts[0].DC, Rack: "rX", Addr: 0x0a00ff01, Tokens: []string{genToken(r, s.Part, false)}})
+	}
+	batch := r.Chance(30)
+	if batch {
+		if partAt%2 == 0 {
+			pol.SetPartitioner(s.PName)
+		}
+		pol.(interface{ AddHosts([]*gocql.HostInfo) }).AddHosts(hosts)
+		if partAt%2 != 0 {
+			pol.SetPartitioner(s.PName)
+		}
+	} else {
+		for i, h := range hosts {
+			if i == partAt {
+				pol.SetPartitioner(s.PName)
+			}
+			if i == extraAt {
+				pol.AddHost(extra)
+			}
+			pol.AddHost(h)
+		}
+		if partAt == len(hosts) {
+			pol.SetPartitioner(s.PName)
+		}
+		if extra != nil {
+			pol.RemoveHost(extra)
+		}
+	}
+	if r.Chance(70) {
+		pol.KeyspaceChanged(gocql.KeyspaceUpdateEvent{Keyspace: "ks", Change: "UPDATED"})
+	}
+	// routing keys
+	less := lessFor(s.Part)
+	ring := sortedRing(s)
+	tp := topologyOf(s)
+	kind, rf, dcs := 0, 0, map[string]int(nil)
+	if haveKs {
+		kind, rf, dcs = gocql.VerifC10Strategy(ks)
+	}
+	var picks []string
+	bad := ""
+	for k := 0; k < 4; k++ {
+		key := r.Bytes(1 + r.Intn(12))
+		tok, _ := gocql.VerifC10HashToken(s.PName, key)
+		it := pol.Pick(gocql.VerifC10Query("ks", key))
+		var seq []int
+		for h := it(); h != nil && len(seq) <= 2*len(hosts); h = it() {
+			i, ok := index[h.Info()]
+			if !ok {
+				i = -2
+			}
+			seq = append(seq, i)
+		}
+		picks = append(picks, "("+cs(tok)+", "+ints(seq)+")")
+		// monitor: the first hosts offered are Cassandra's replicas for the key's token
+		if len(ring) > 0 && bad == "" {
+			walk := ringWalk(ring, less, tok)
+			want := []int{walk[0]}
+			switch kind {
+			case 1:
+				want = cassSimple(walk, rf)
+			case 2:
+				want = cassNTS22(s, tp, walk, dcs)
+			}
+			if kind == 2 && len(want) == 0 { // no DC of the ring holds replicas: the map is empty and the policy falls back to the token's owner
+				want = []int{walk[0]}
+			}
+			if len(seq) < len(want) || !sameList(seq[:len(want)], want) {
+				bad = fmt.Sprintf("routing key %x (token %s): Pick offered %v, Cassandra's replicas are %v", key, tok, seq, want)
+			}
+		}
+	}
+	hostsT := make([]string, len(s.Hosts))
+	for i, h := range s.Hosts {
+		toks := make([]string, len(h.Tokens))
+		for j, t := range h.Tokens {
+			toks[j] = cs(t)
+		}
+		hostsT[i] = fmt.Sprintf("(%d, mkInfo %s %s %d, %s)", i, cs(h.DC), cs(h.Rack), h.Addr, hlib.List(toks))
+	}
+	idx := -1
+	if !o.Search {
+		idx = o.Case("policy-pick", len(s.Hosts) >= 2 && kind != 0, fmt.Sprintf("CPick %s %s %s %s %s %s", partCtor[s.Part], hlib.List(hostsT), cs(s.Class), optsTerm(s), hlib.Bool(haveKs), hlib.List(picks)))
+	} else {
+		o.Count("policy-pick")
+	}
+	if bad != "" {
+		violate(o, idx, "policy-offers-replicas-first", "", bad, s.json())
+	}
+}
+
 // ---- strategy parsing and token parsing cases ---------------------------------------------------
 
 func strategyCases(o *hlib.Out, n int) {
@@ -1089,6 +1214,11 @@ func main() {
 		for i := 0; i < 4000*o.Scale/5; i++ {
 			runScenario(o, "search", genScenario(r, genOpts{maxHosts: 16, maxTokens: 8, maxDCs: 4, maxRacks: 4}))
 		}
+		for i := 0; i < 300*o.Scale; i++ {
+			if s := genScenario(r, genOpts{maxHosts: 10, maxTokens: 6, maxDCs: 3, maxRacks: 3}); inScope(s, wellFormed(s)) {
+				policyScenario(o, s)
+			}
+		}
 		n := exhaustive(o, 3, 2, 0)
 		o.Extra["search_exhaustive_scenarios"] = n
 		finish(o)
@@ -1105,6 +1235,14 @@ func main() {
 			g = genOpts{maxHosts: 5, maxTokens: 3, maxDCs: 2, maxRacks: 2}
 		}
 		runScenario(o, "ring", genScenario(r, g))
+	}
+	// the same placement as the application gets it: TokenAwareHostPolicy.Pick after a history of host and keyspace events
+	for i, n := 0, 0; n < 120*o.Scale && i < 2000*o.Scale; i++ {
+		s := genScenario(r, genOpts{maxHosts: 8, maxTokens: 4, maxDCs: 3, maxRacks: 3})
+		if inScope(s, wellFormed(s)) {
+			policyScenario(o, s)
+			n++
+		}
 	}
 	// boundary: single host, single token, every host in one rack, factor 0 everywhere
 	for i := 0; i < 100*o.Scale; i++ {
